@@ -20,7 +20,7 @@ pub fn def() -> PropDef {
             "FromF_Zero", "FromF_Subnormal", "FromF_PowNeg", "FromF_PowZero", "FromF_PowPos",
             "ToF64_Zero", "ToF64_Scale0", "ToF64_Trim", "ToF64_Powi", "ToF64_String", "ToF64_Infinity",
         ],
-        rule: "f32: enumerated bit patterns (quick: every exponent field x 65536 mantissas incl. 0, 1, max, alternating sign = 2^24 patterns; thorough: all 2^32), each through try_from / from_f32 with an exact check decimal == mantissa * 2^e (table of powers of five), NaN/inf => error, and back through to_f64 / to_f32 bit for bit; f64: exponent fields {0,1,2,1022..1025,2045,2046,2047} x random mantissas, mantissas of all ones/zeros, random f64, values 2^k and 2^k +- 1ulp across 2^52..2^70; to_f64 of arbitrary decimals: 1..400 digits with exponents -400..400, exact midpoints between adjacent floats +- 1 unit far down, neighbourhoods of f64::MAX (digits x 10^n forms up to 1.8e308), MIN_POSITIVE and the smallest subnormal, short coefficients (1, 2, 5, 10, 1..999) at exponents +-300..420 (1e309, 9e307, 5e-324, 1e-400), judged by exact rational inequalities (relative error <= 2^-48 in the normal range, infinity only beyond or within tolerance of MAX, one subnormal step below). distinct = distinct bit patterns / decimals (enumerated ones are distinct by construction); non-trivial = finite non-zero float or non-zero decimal",
+        rule: "f32: enumerated bit patterns (quick: every exponent field x 65536 mantissas incl. 0, 1, max, alternating sign = 2^24 patterns; thorough: all 2^32), each through try_from / from_f32 with an exact check decimal == mantissa * 2^e (table of powers of five), NaN/inf => error, and back through to_f64 / to_f32 bit for bit; f64: exponent fields {0,1,2,1022..1025,2045,2046,2047} x random mantissas, mantissas of all ones/zeros, random f64, values 2^k and 2^k +- 1ulp across 2^52..2^70; to_f64 of arbitrary decimals: 1..400 digits with exponents -400..400, exact midpoints between adjacent floats +- 1 unit far down, neighbourhoods of f64::MAX (digits x 10^n forms up to 1.8e308), MIN_POSITIVE and the smallest subnormal, scales exactly on and beside the ends of the i32 / u32 / i64 ranges, short coefficients (1, 2, 5, 10, 1..999) at exponents +-300..420 (1e309, 9e307, 5e-324, 1e-400), judged by exact rational inequalities (relative error <= 2^-48 in the normal range, infinity only beyond or within tolerance of MAX, one subnormal step below). distinct = distinct bit patterns / decimals (enumerated ones are distinct by construction); non-trivial = finite non-zero float or non-zero decimal",
     }
 }
 
@@ -353,7 +353,11 @@ fn gen_decimal_for_to_f64(r: &mut Rng) -> Dec {
         6 => {
             // huge / tiny exponents beyond i32
             let n = gen::int_nonzero(r, 30);
-            Dec::new(n, *r.pick(&[i32::MAX as i64 + 10, -(i32::MAX as i64) - 10, 5_000, -5_000, 400, -400, i64::MAX, i64::MIN + 1]))
+            let (j1, j2) = (r.range(0, 40), r.range(0, 40));
+            Dec::new(n, *r.pick(&[i32::MAX as i64 + 10, -(i32::MAX as i64) - 10, 5_000, -5_000, 400, -400, i64::MAX, i64::MIN + 1,
+                // exactly on the ends of the i32 / u32 / i64 ranges, where a narrowed exponent or its negation overflows
+                i32::MIN as i64, i32::MIN as i64 + 1, i32::MIN as i64 - 1, i32::MAX as i64, i32::MAX as i64 + 1, u32::MAX as i64, u32::MAX as i64 + 1, -(u32::MAX as i64), i64::MIN, i64::MAX - 1,
+                i32::MIN as i64 + j1, i32::MAX as i64 - j2]))
         }
         _ => {
             let len = 1 + r.below(400) as usize;
